@@ -67,6 +67,7 @@ type verifC16Stream struct {
 	lastHB    time.Time
 	hbSeen    int
 	readCalls int
+	parked    int // Reads blocked because the script is exhausted
 	// what the stack has been given, the reference for the byte-stream oracle
 	exp       []byte       // concatenation of the data messages handed out in full before the first error
 	hbOffsets map[int]bool // offsets in exp at which a heartbeat was handed out
@@ -171,6 +172,8 @@ func (s *verifC16Stream) Read(b []byte) (int, error) {
 			}
 		}
 		// script exhausted: block
+		s.parked++
+		s.bcastLocked()
 		ch := s.wake
 		var tc <-chan time.Time
 		var tm *time.Timer
@@ -191,6 +194,7 @@ func (s *verifC16Stream) Read(b []byte) (int, error) {
 			tm.Stop()
 		}
 		s.mu.Lock()
+		s.parked--
 	}
 }
 
@@ -281,7 +285,7 @@ func (s *verifC16Stream) OnBufferedAmountLow(f func()) {
 type verifC16StreamState struct {
 	Consumed, Total, Closes, Writes, HBWrites, HBSeen, LowFired, BACalls int
 	Buffered, Written, Peak, PeakPre                                      uint64
-	Closed                                                                bool
+	Closed, Parked                                                        bool
 	LastHB                                                                time.Time
 	ExpLen, TailLen, RefusedIn, RefusedLg                                 int
 	FirstErr                                                              error
@@ -303,7 +307,7 @@ func (s *verifC16Stream) State() verifC16StreamState {
 	defer s.mu.Unlock()
 	return verifC16StreamState{Consumed: s.consumed, Total: len(s.items), Closes: s.closes, Writes: s.writes, HBWrites: s.hbWrites,
 		HBSeen: s.hbSeen, LowFired: s.lowFired, BACalls: s.baCalls, Buffered: s.buffered, Written: s.written, Peak: s.peak, PeakPre: s.peakPre,
-		Closed: s.closed, LastHB: s.lastHB, ExpLen: len(s.exp), TailLen: s.tailLen, RefusedIn: s.refusedIn, RefusedLg: s.refusedLg, FirstErr: s.firstErr}
+		Closed: s.closed, Parked: s.parked > 0, LastHB: s.lastHB, ExpLen: len(s.exp), TailLen: s.tailLen, RefusedIn: s.refusedIn, RefusedLg: s.refusedLg, FirstErr: s.firstErr}
 }
 
 // WaitState blocks until pred holds on the stream state or the bound passes; it reports whether it held.
